@@ -13,7 +13,7 @@ RULE = (
     "Hypothesis draws two sign-changing sources q1,q2 (delta/sparse/dense/smooth) on the same grid, scalars a,b in [-4,4], two "
     "backgrounds, 1..3 ascending levels, halo kind, mode counts, profiles (closures/free/const), numerical or analytic mode "
     "(analytic only with constant profiles), precision double. Oracles: S(a q1+b q2, a c1+b c2) == a S(q1,c1)+b S(q2,c2) for "
-    "concentration and flux at every level; S(q,c)-S(q,0) == (c, 0) uniformly; footprint results for two different source arrays of "
+    "concentration and flux at every level; S(q,c)-S(q,0) == (c, 0) uniformly, in dispersion and in footprint mode; footprint results for two different source arrays of "
     "the same shape are bit-identical. Non-trivial = q1,q2 linearly independent and a*b != 0; distinct = canonical JSON."
 )
 TINY = 1e-290  # below this the fields are in or next to the subnormal range, where rounding is absolute (5e-324), not relative
@@ -106,6 +106,18 @@ def check_case(case):
     for name, xa, xb in (("conc", fpa[1], fpb[1]), ("flux", fpa[2], fpb[2])):
         if not np.array_equal(xa, xb):
             out.bad(f"footprint {name} depends on the values of the source array (max diff {tol.maxabs(np.asarray(xa) - np.asarray(xb)):.3e})")
+
+    # ... and the background is a uniform offset of the concentration footprint too, of either sign
+    cb = c1 if c1 != 0.0 else (-2.5 if c2 == 0.0 else c2)
+    fpc = sut.S(q2, z, prof, dom, lv, meas_pt=mp, footprint=True, srf_bg_conc=cb, **kw)
+    dfp = np.asarray(fpc[1], float) - np.asarray(fpa[1], float)
+    fsc = max(tol.maxabs(fpa[1]), abs(cb))
+    if not tol.maxabs(dfp - cb) <= rel * fsc + TINY:
+        out.bad(f"footprint mode: conc(bg={cb}) - conc(bg=0) is not the uniform offset {cb}: deviation {tol.maxabs(dfp - cb):.3e} "
+                f"(field max {tol.maxabs(fpa[1]):.3e})")
+    if not tol.maxabs(np.asarray(fpc[2], float) - np.asarray(fpa[2], float)) <= rel * tol.maxabs(fpa[2]) + TINY:
+        out.bad(f"footprint mode: flux changes with the background concentration by "
+                f"{tol.maxabs(np.asarray(fpc[2], float) - np.asarray(fpa[2], float)):.3e}")
 
     indep = np.linalg.matrix_rank(np.stack([q1.ravel(), q2.ravel()])) == 2
     out.nontrivial = bool(indep and a * b != 0.0)
